@@ -211,6 +211,7 @@ namespace c18
 
     // ---------------------------------------------------------------- decode
     MeshDesc md = gen_mesh(t, dim, simplex, big);
+    const bool via_deduct = t.flag(1, 3) && !(simplex && dim == 3);
     // operation
     int op;
     {
@@ -265,12 +266,13 @@ namespace c18
     c.label(std::string("perm-coarse:") + perm_name(perm_of(pst[nref - 1]))); c.label(std::string("perm-fine:") + perm_name(perm_of(pst[nref])));
     c.label(pst[nref - 1] == 0 && pst[nref] == 0 ? "perm:none" : pst[nref - 1] == 0 ? "perm:fine-only" : pst[nref] == 0 ? "perm:coarse-only" : "perm:both");
     c.label(std::string("cub:") + cub.substr(0, cub.rfind(':'))); c.label(std::string("vec:") + vcls_name(vcls_eff));
+    c.desc.set("build", via_deduct ? "deduct" : "factory"); c.label(via_deduct ? "build:deduct" : "build:factory");
     c.label(variant == 0 ? "asm:protocol" : "asm:direct"); c.label(nref == 2 ? "levels:3" : "levels:2");
 
     // ---------------------------------------------------------------- meshes (hierarchy first, permutations afterwards:
     // the protocol of Control::Domain::PartiDomainControl::create_mesh_permutations and area51/dbg_meshperm)
     std::vector<std::unique_ptr<MeshType>> mesh;
-    mesh.push_back(build_mesh<Shape_>(md));
+    mesh.push_back(build_mesh<Shape_>(md, via_deduct));
     for(int l = 0; l < nref; ++l) { Geometry::StandardRefinery<MeshType> ref(*mesh.back()); mesh.push_back(std::make_unique<MeshType>(ref)); }
 
     // generated data that needs the dof counts: decoded after the spaces exist, but before announce()
